@@ -22,15 +22,28 @@ type renv struct {
 	names  []string
 	cells  []*rcell
 	parent *renv
+	plimit int // how many names of the parent were declared when this scope was opened
 }
 
+func newEnv(parent *renv) *renv {
+	e := &renv{parent: parent}
+	if parent != nil {
+		e.plimit = len(parent.names)
+	}
+	return e
+}
+
+// lookup finds the innermost declaration visible from this scope: later `local` statements of an
+// enclosing block are not visible to scopes (and closures) opened before them.
 func (e *renv) lookup(name string) *rcell {
+	limit := len(e.names)
 	for s := e; s != nil; s = s.parent {
-		for i := len(s.names) - 1; i >= 0; i-- {
+		for i := limit - 1; i >= 0; i-- {
 			if s.names[i] == name {
 				return s.cells[i]
 			}
 		}
+		limit = s.plimit
 	}
 	return nil
 }
@@ -51,6 +64,7 @@ type rfunc struct {
 	par    *ast.ParList
 	body   []ast.Stmt
 	env    *renv
+	envLim int // names of env visible to the closure (those declared before it was created)
 	fenv   *rtable
 	self   bool // method definition: implicit self parameter
 	main   bool
@@ -483,7 +497,7 @@ func (r *rlua) call(f rval, args []rval) []rval {
 	case *rbuiltin:
 		return fn.fn(r, args)
 	case *rfunc:
-		env := &renv{parent: fn.env}
+		env := &renv{parent: fn.env, plimit: fn.envLim}
 		names := fn.par.Names
 		if fn.self {
 			names = append([]string{"self"}, names...)
@@ -556,6 +570,15 @@ func (r *rlua) stmt(s ast.Stmt, env *renv, fn *rfunc, va []rval) rctl {
 	r.tick()
 	switch st := s.(type) {
 	case *ast.LocalAssignStmt:
+		if len(st.Names) == 1 && len(st.Exprs) == 1 {
+			if fe, ok := st.Exprs[0].(*ast.FunctionExpr); ok {
+				// the parser renders `local function f` as this shape: the name is in scope in
+				// the body (the AST cannot tell it from `local f = function`, see DESIGN 14.3)
+				env.declare(st.Names[0], LNil)
+				env.cells[len(env.cells)-1].v = r.closure(fe, env, fn)
+				return rctl{}
+			}
+		}
 		vals := r.exprList(st.Exprs, env, fn, va, len(st.Names))
 		for i, n := range st.Names {
 			env.declare(n, vals[i])
@@ -591,10 +614,10 @@ func (r *rlua) stmt(s ast.Stmt, env *renv, fn *rfunc, va []rval) rctl {
 	case *ast.FuncCallStmt:
 		r.exprMulti(st.Expr, env, fn, va)
 	case *ast.DoBlockStmt:
-		return r.block(st.Stmts, &renv{parent: env}, fn, va)
+		return r.block(st.Stmts, newEnv(env), fn, va)
 	case *ast.WhileStmt:
 		for rtruthy(r.expr1(st.Condition, env, fn, va)) {
-			c := r.block(st.Stmts, &renv{parent: env}, fn, va)
+			c := r.block(st.Stmts, newEnv(env), fn, va)
 			if c.kind == ctlBreak {
 				break
 			}
@@ -604,7 +627,7 @@ func (r *rlua) stmt(s ast.Stmt, env *renv, fn *rfunc, va []rval) rctl {
 		}
 	case *ast.RepeatStmt:
 		for {
-			inner := &renv{parent: env}
+			inner := newEnv(env)
 			c := r.block(st.Stmts, inner, fn, va)
 			if c.kind == ctlBreak {
 				break
@@ -618,9 +641,9 @@ func (r *rlua) stmt(s ast.Stmt, env *renv, fn *rfunc, va []rval) rctl {
 		}
 	case *ast.IfStmt:
 		if rtruthy(r.expr1(st.Condition, env, fn, va)) {
-			return r.block(st.Then, &renv{parent: env}, fn, va)
+			return r.block(st.Then, newEnv(env), fn, va)
 		}
-		return r.block(st.Else, &renv{parent: env}, fn, va)
+		return r.block(st.Else, newEnv(env), fn, va)
 	case *ast.NumberForStmt:
 		init, ok1 := r.expr1(st.Init, env, fn, va).(LNumber)
 		limit, ok2 := r.expr1(st.Limit, env, fn, va).(LNumber)
@@ -643,7 +666,7 @@ func (r *rlua) stmt(s ast.Stmt, env *renv, fn *rfunc, va []rval) rctl {
 			} else if !(float64(limit) <= idx) {
 				break
 			}
-			inner := &renv{parent: env}
+			inner := newEnv(env)
 			inner.declare(st.Name, LNumber(idx))
 			c := r.block(st.Stmts, inner, fn, va)
 			if c.kind == ctlBreak {
@@ -664,7 +687,7 @@ func (r *rlua) stmt(s ast.Stmt, env *renv, fn *rfunc, va []rval) rctl {
 				break
 			}
 			ctl = rs[0]
-			inner := &renv{parent: env}
+			inner := newEnv(env)
 			for i, n := range st.Names {
 				inner.declare(n, rs[i])
 			}
@@ -713,7 +736,7 @@ func (r *rlua) assignTo(l ast.Expr, v rval, env *renv, fn *rfunc, va []rval) {
 
 func (r *rlua) closure(fe *ast.FunctionExpr, env *renv, fn *rfunc) *rfunc {
 	r.nextID++
-	return &rfunc{par: fe.ParList, body: fe.Stmts, env: env, fenv: fn.fenv, id: r.nextID}
+	return &rfunc{par: fe.ParList, body: fe.Stmts, env: env, envLim: len(env.names), fenv: fn.fenv, id: r.nextID}
 }
 
 func adjust(vs []rval, n int) []rval {
